@@ -576,7 +576,7 @@ static void op_get (mpq_QSdata * p)
 
 static void op_addrows (mpq_QSdata * p, int ranged)
 {
-	int num = tk_int (), i, j, tot = 0, cap = 16, rv;
+	int num = tk_int (), i, j, tot = 0, cap = 16, rv, gap = 0, pos = 0;
 	int *cnt, *beg, *ind = (int *) malloc (sizeof (int) * cap);
 	char *sense, **names;
 	mpq_t *rhs, *range, *val = NULL, tmp;
@@ -601,10 +601,12 @@ static void op_addrows (mpq_QSdata * p, int ranged)
 		}
 		CUR = save;
 		nval = total;
-		val = mpq_EGlpNumAllocArray (total + 1);
+		val = mpq_EGlpNumAllocArray (total + 2 * num + 3);
 		free (ind);
-		ind = (int *) calloc (total + 1, sizeof (int));
+		ind = (int *) calloc (total + 2 * num + 3, sizeof (int));
 	}
+	/* the rows need not be stored back to back: gap slots (belonging to no row) precede every row in two of three calls */
+	gap = (num + nval) % 3;
 	for (i = 0; i < num && !bad_args; i++)
 	{
 		tk_q (rhs[i]);
@@ -612,8 +614,9 @@ static void op_addrows (mpq_QSdata * p, int ranged)
 		if (ranged) tk_q (range[i]);
 		names[i] = dupname (tk_name ());
 		cnt[i] = tk_int ();
-		beg[i] = tot;
-		for (j = 0; j < cnt[i] && tot < nval; j++) { ind[tot] = tk_int (); tk_q (val[tot]); tot++; }
+		for (j = 0; j < gap; j++) { ind[pos] = 0; mpq_set_ui (val[pos], 1UL, 1UL); pos++; }
+		beg[i] = pos;
+		for (j = 0; j < cnt[i] && tot < nval; j++) { ind[pos] = tk_int (); tk_q (val[pos]); pos++; tot++; }
 	}
 	if (!bad_args)
 	{
@@ -629,7 +632,7 @@ static void op_addrows (mpq_QSdata * p, int ranged)
 
 static void op_addcols (mpq_QSdata * p)
 {
-	int num = tk_int (), i, j, tot = 0, rv, nval = 0;
+	int num = tk_int (), i, j, tot = 0, rv, nval = 0, gap = 0, pos = 0;
 	int *cnt, *beg, *ind;
 	char **names;
 	mpq_t *obj, *lo, *up, *val;
@@ -652,15 +655,17 @@ static void op_addcols (mpq_QSdata * p)
 		CUR = save;
 		nval = total;
 	}
-	val = mpq_EGlpNumAllocArray (nval + 1);
-	ind = (int *) calloc (nval + 1, sizeof (int));
+	val = mpq_EGlpNumAllocArray (nval + 2 * num + 3);
+	ind = (int *) calloc (nval + 2 * num + 3, sizeof (int));
+	gap = (num + nval) % 3;		/* as in op_addrows: columns not stored back to back */
 	for (i = 0; i < num && !bad_args; i++)
 	{
 		tk_q (obj[i]); tk_q (lo[i]); tk_q (up[i]);
 		names[i] = dupname (tk_name ());
 		cnt[i] = tk_int ();
-		beg[i] = tot;
-		for (j = 0; j < cnt[i] && tot < nval; j++) { ind[tot] = tk_int (); tk_q (val[tot]); tot++; }
+		for (j = 0; j < gap; j++) { ind[pos] = 0; mpq_set_ui (val[pos], 1UL, 1UL); pos++; }
+		beg[i] = pos;
+		for (j = 0; j < cnt[i] && tot < nval; j++) { ind[pos] = tk_int (); tk_q (val[pos]); pos++; tot++; }
 	}
 	if (!bad_args)
 	{
